@@ -207,6 +207,14 @@ Proof.
   - intros _; exact H.
   - intros _; exact H.
   - intros _. cbn [fst]. apply rinv_store_step; exact H.
+  - cbn [fst]. unfold complete_exist. destruct (inflight s) eqn:Ei; [|intros _; exact H]. intros Hc.
+    assert (Hc' : closed (complete s false) = false) by exact Hc.
+    pose proof (rinv_complete s r false H Hc') as H1.
+    eapply rinv_transfer; try exact H1; try reflexivity; auto. apply (ri_done _ _ H1).
+  - intros _. cbn [fst]. unfold tm_start. destruct (_ && _); [|exact H].
+    eapply rinv_transfer; try exact H; try reflexivity; auto. apply (ri_done _ _ H).
+  - intros _. cbn [fst]. eapply rinv_transfer; try exact H; try reflexivity; auto. apply (ri_done _ _ H).
+  - intros _; exact H.
 Qed.
 
 Lemma rinv_run_from P ops : forall s r, shape s -> rinv s r -> closed (run_from P s ops) = false ->
